@@ -6,10 +6,6 @@ open Conv
 let show_runes l =
   if l = [] then "-" else String.concat "," (List.map (fun z -> string_of_int (int_of_z z)) l)
 
-let show_text = function
-  | Some l -> "SOME " ^ hex_of_zlist l
-  | None -> "NONE"
-
 let () = register "c39" (fun args ->
   match args with
   | [cs; full; content] ->
@@ -26,10 +22,17 @@ let () = register "c39prep" (fun args ->
   | [content] -> show_outcome (fun l -> "OK " ^ hex_of_zlist l) (c39_prepare (zlist_of_hex content))
   | _ -> "BAD")
 
-(* specification oracle: the reference decoder applied to a module row *)
+(* specification oracle: the reference decoder applied to a module row:
+   SOME <text> <printed data characters = expected Content()> <sum mod 43 = expected CheckSum()> *)
 let () = register "c39dec" (fun args ->
   match args with
-  | [cs; full; bits] -> show_text (c39_decode (cs = "1") (full = "1") (bools_of_string bits))
+  | [cs; full; bits] ->
+    let b = bools_of_string bits in
+    (match c39_decode (cs = "1") (full = "1") b, c39_decode_values (cs = "1") b with
+     | Some t, Some vals ->
+       Printf.sprintf "SOME %s %s %d" (hex_of_zlist t) (hex_of_zlist (List.map c39_value_char vals))
+         (int_of_z (c39_check vals))
+     | _ -> "NONE")
   | _ -> "BAD")
 
 let () = register "u8d" (fun args ->
